@@ -308,6 +308,9 @@ func runProtocol(kc *kernelCtx, blocks []*Block, only string, want map[string]bo
 		if on("C03") || on("C14") {
 			pc.p2Release(s)
 		}
+		if on("C14") {
+			pc.p9BlockingWaits(s)
+		}
 		if on("C02") {
 			pc.p4Mode(s)
 		}
